@@ -1487,6 +1487,7 @@ fn main() {
                     "end_line": cx.line_of(b.saturating_sub(1)),
                     "orig": &src[a..b],
                     "has_contract": c.is_some(),
+                    "has_body": f.block.is_some(),
                     "in_trait_impl": f.in_trait_impl,
                 }));
             }
